@@ -1191,7 +1191,9 @@ class PulseSequence:
 
 def _join_equal_segments(pulse: PulseSequence) -> Sequence[Coefficients]:
     """Join potentially equal consecutive segments of *pulse*'s Hamiltonian."""
-    equal_ind = (np.diff(pulse.c_coeffs) == 0).all(axis=0).nonzero()[0]
+    # Segments can only be joined if control and noise Hamiltonian are equal
+    equal_ind = ((np.diff(pulse.c_coeffs) == 0).all(axis=0)
+                 & (np.diff(pulse.n_coeffs) == 0).all(axis=0)).nonzero()[0]
 
     if equal_ind.size > 0:
         c_coeffs = np.delete(pulse.c_coeffs, equal_ind, axis=1)
